@@ -1044,7 +1044,8 @@ def tables_equal(a, b, rtol):
 # run
 # --------------------------------------------------------------------------
 def run(ctx):
-    ctx.build_with_translator(FILES)
+    ctx.build_with_translator(FILES, extra_files=['C17_Model.v', 'C17_Proofs.v', 'C17M_Proofs.v', 'C17M_Properties.v'],
+                              extra_obligation_files=['C17M_Properties.v'])   # moment centroid within the kernel box
     ctx.cov['rule'] = (
         'find_peaks: random small images (random/plateau/all-negative/ties/a candidate on every border cell/'
         'constant, quarter-dyadic scaling, NaN, +-inf) x thresholds on or between data values (scalar/2-D, NaN '
